@@ -98,6 +98,40 @@ def run(ctx, repo, tier):
             pts = org.args[0] if org.args else None
             regs = find_terms(pts, lambda t: t.op == "region")
             rv = find_terms(pts, lambda t: t.op == "reduced_vertices")
+            # ALL helper points assigned to the cell go into its hull: the element stacked onto the vertices is the per-cell assignment
+            # itself (helper points whose nearest centre is i), not a further selection of it
+            stacks = find_terms(pts, lambda t: t.op == "vstack")
+            ctx.instance("FLOW")
+            verdict_h = None
+            for stv in stacks:
+                lst_ = stv.args[0] if stv.args else None
+                elems_ = []
+                if isinstance(lst_, ListV):
+                    from ..values import flat_elems as _fe
+                    elems_ = _fe(lst_.items) or []
+                elif isinstance(lst_, TupleV):
+                    elems_ = lst_.items
+                for e_ in elems_:
+                    if "AP" not in vstr(e_):
+                        continue
+                    def is_assignment(t_):
+                        return isinstance(t_, Term) and t_.op == "masked" and isinstance(t_.args[0], Grid) and "argmin" in vstr(t_.args[1]) and \
+                            not find_terms(t_.args[0], lambda u: u.op in ("masked", "item", "gather"))
+                    if is_assignment(e_):
+                        verdict_h = True if verdict_h is None else verdict_h
+                    elif isinstance(e_, Term) and e_.op in ("item", "masked", "gather", "slice", "getitem") and e_.args and is_assignment(e_.args[0]):
+                        verdict_h = False
+                    else:
+                        verdict_h = verdict_h if verdict_h is False else "?"
+            if verdict_h is True:
+                ctx.ok("FLOW", "C15.hull.helpers", "every helper point assigned to cell i (nearest centre) enters the hull of cell i", where)
+            elif verdict_h is False:
+                ctx.violate("FLOW", "C15.hull.helpers", "the helper points assigned to a cell are filtered AGAIN before its hull is built: the hull of a "
+                            "large (strongly curved) cell loses the points that carry its curvature and its measure is under-estimated, so the "
+                            "smallest grids fall out of the 12% band of the total", av.methods["get_convex_hulls"].where if "get_convex_hulls" in av.methods else where,
+                            "within_region = np.vstack([additional_assignments[i], within_region])", witness="a selection is applied to the per-cell assignment")
+            else:
+                ctx.inconclusive("FLOW", "C15.hull.helpers", "the helper-point part of the hull input was not recognised", where, witness=vstr(pts)[:200])
             ctx.check(bool(regs) and bool(rv), "FLOW", "C15.hull.points", "the hull of cell i is built from the reduced vertices of region i "
                       "(plus its helper points)", av.methods["get_convex_hulls"].where if "get_convex_hulls" in av.methods else where,
                       witness=vstr(pts)[:300])
